@@ -67,7 +67,7 @@ def cases(tier, seed):
     n = 170 if tier == "quick" else 6500
     for spec in workload.standard_cases(tier, seed, n, n, opts_fn=opts, frag_share=0.35,
                                         p={"variant_prob": 0.15, "na_prob": 0.15, "waters": [0, 2, 5, 8],
-                                           "damage_prob": 0.3, "dense_prob": 0.8,
+                                           "damage_prob": 0.3, "dense_prob": 0.8, "crowd_prob": 0.3,
                                            "hydrogens": ["none", "none", "some", "side"]}):
         spec["kind"] = "run"
         out.append(spec)
